@@ -20,7 +20,7 @@ EXPLANATION = (
     "C19.7 monotonic readings come from CLOCK_MONOTONIC on both the vDSO and the syscall path (shared with C07.8), and every now() of Instant/MonotonicInstant reads that one clock (SystemTime: CLOCK_REALTIME); "
     "C19.8 every public operation of Instant and SystemTime (+ Duration, - Duration, - Self, duration_since, elapsed) reaches its own arithmetic helper with its operands in order (self first; now before self for elapsed) and wraps the result in its own type. "
     "C19.5 also: TimeSpec's Ord/PartialOrd are the derived implementations. C19.1 also: a seconds value that does not fit its converted type ends the computation with None. "
-    "C19.3 also: the seconds of every Duration sub_ts_checked_dur builds are u64::try_from of a value depending on both operands' seconds, and no abs/abs_diff discards the sign of a difference. NOT decided: the exactness identities ((t+d)-d = t, ...) as numerical facts, the kernel clock's monotonicity, the wall-clock lower bound of sleep.")
+    "C19.3 also: the seconds of every Duration sub_ts_checked_dur builds are u64::try_from of a value depending on both operands' seconds, and no abs/abs_diff discards the sign of a difference. C19.2 is also accepted in its path-by-path form: on every way to a Some result the 10^9 correction and the one-second carry / borrow occur together (once each or not at all), the way with the correction under the sign test that calls for it. NOT decided: the exactness identities ((t+d)-d = t, ...) as numerical facts, the kernel clock's monotonicity, the wall-clock lower bound of sleep.")
 ASSUMPTIONS = ["inputs are normalised (0 <= nanoseconds < 10^9), as the property states", "the monotonic clock is non-negative"]
 
 T = "tiny_std::time::"
